@@ -59,7 +59,8 @@ Fingerprint(cls, ps) ==
 NewInst(cls, ps, pw, idA, idB) ==
   [cls |-> cls, ps |-> ps, pw |-> pw, idA |-> idA, idB |-> idB,   \* S: idA holds idSymmetric
    started |-> FALSE, finished |-> FALSE, gaveMsg |-> FALSE, gaveKey |-> FALSE,
-   restored |-> FALSE, hasx |-> FALSE, x |-> NLit(0), out |-> <<>>]
+   restored |-> FALSE, hasx |-> FALSE, x |-> NLit(0), out |-> <<>>,
+   limbo |-> FALSE]      \* a start() failed because the entropy function raised (see StartOutcomes)
 
 (* start(), given the scalar the entropy function produced                   *)
 StartOutcome(s, x) ==
@@ -70,6 +71,21 @@ StartNext(s, x, o) ==
   THEN [s EXCEPT !.started = TRUE, !.gaveMsg = TRUE, !.hasx = TRUE, !.x = x,
                  !.out = Tail(o.v)]                     \* = OutBytes(s.cls, s.ps, s.pw, x)
   ELSE s
+
+(* A start() whose entropy function RAISES returns no message (the scalar    *)
+(* comes from the entropy function and from nothing else, C11), so the call  *)
+(* raises.  Whether that call counts as "the" start() is left open by the    *)
+(* properties (the code sets its flag first, so a retry raises               *)
+(* OnlyCallStartOnce; an implementation that sets it last may serve the      *)
+(* retry): the instance is in LIMBO - not started for every other purpose    *)
+(* (finish() and serialize() raise, no scalar exists), and a later start()   *)
+(* either raises OnlyCallStartOnce without drawing or draws and returns THE  *)
+(* one message.                                                              *)
+StartOutcomes(s, x) ==
+  IF s.started THEN {Err("OnlyCallStartOnce")}
+  ELSE IF s.limbo THEN {Err("OnlyCallStartOnce"), StartOutcome(s, x)}
+  ELSE {StartOutcome(s, x)}
+StartFailedNext(s) == IF s.started THEN s ELSE [s EXCEPT !.limbo = TRUE]
 
 (* the side byte check of finish()  (C06)                                    *)
 SideVerdict(cls, m) ==
@@ -121,7 +137,8 @@ BlobOf(s) ==
   IN IF s.cls = "S" THEN base @@ [idS |-> s.idA]
      ELSE base @@ [idA |-> s.idA, idB |-> s.idB]
 SerializeOutcome(s) ==
-  IF ~s.started THEN Err("SerializedTooEarly") ELSE Blob(BlobOf(s))
+  IF ~s.started THEN (IF s.limbo THEN Err("Rejected") ELSE Err("SerializedTooEarly"))   \* limbo: start() was called, any error
+  ELSE Blob(BlobOf(s))
 
 (* from_serialized(blob) called on class cls with parameters ps  (C08-C10)   *)
 BlobFieldsAB == {"hashed_params", "side", "password", "xy_scalar", "idA", "idB"}
